@@ -295,6 +295,13 @@ class ScriptGen:
         r = self.rng
         self.n += 1
         k = r.choice(['print', 'println', 'printf', 'printf'])
+        if k == 'printf' and r.random() < 0.3:
+            # named fields read at run time: a variable or macro of this
+            # script, or a name this script never defines (prints None)
+            names = ['va', 'vb', 'counter', 'scratch', 'level', 'pa']
+            names += [n for n, _v in self.num_macros]
+            return 'printf "{{{}}}/{{{}}}\\n"'.format(r.choice(names),
+                                                      r.choice(names))
         if k in ('print', 'println'):
             if self.vars and r.random() < 0.6:
                 return '{} {}'.format(k, r.choice(self.vars))
